@@ -156,6 +156,8 @@ typedef struct {
 int dump_file(const char *path, dump_t *d, uint64_t seed);
 /* compares and reports differences as violations of 'prop' with key prefix */
 int dump_compare(const dump_t *a, const dump_t *b, const char *prop, const char *keyprefix, const char *what);
+/* per-signal mask (256 entries, may be NULL): skip length/samples/statistics comparison for those signals */
+void dump_compare_skip_fsr(const uint8_t *mask);
 
 /* ---------- decoder vs model ---------- */
 /* structural decode + content comparison against the model; charges C05 (or prop) */
